@@ -121,8 +121,40 @@ def main(tier):
     bits = 17 + 19 * 3 + (K['ISAL_DEF_LIT_LEN_SYMBOLS'] + K['ISAL_DEF_DIST_SYMBOLS']) * 7
     RH.check(bits + 64 <= K['ISAL_DEF_MAX_HDR_SIZE'] * 8, 'include/igzip_lib.h:ISAL_DEF_MAX_HDR_SIZE', 'worst-case header %d bits + 64 bits slack exceeds %d bytes' % (bits, K['ISAL_DEF_MAX_HDR_SIZE']),
              sample='%d bits + 64 <= %d' % (bits, K['ISAL_DEF_MAX_HDR_SIZE'] * 8))
+    check_table_cover(rep, mod)
     check_useable_schedule(rep, mod, K)
     return rep.finish()
+
+
+FILLERS = {'create_code_tables': ((0, 1), 2), 'create_packed_dist_table': ((0,), 1)}     # callee -> (destination argument indices, count argument index)
+
+
+def check_table_cover(rep, mod):
+    """the encoder reads hufftables->dcodes / lit_table / dist_table for every symbol the stored header advertises: the builders must fill each of these
+    arrays completely, i.e. the count they pass to the filling helper is the array's declared length (read from the IR type of the destination)."""
+    R = rep.rule('L-TABLE-COVER', 'isal_create_hufftables / _subset: every call of a table-filling helper (create_code_tables, create_packed_dist_table) passes as count the declared element count of each destination array '
+                 'of struct isal_hufftables it is given - no encoder table entry that the stored header can advertise is left at its memset value', floor=10, unit='(call, destination) pairs')
+    for fn in ('isal_create_hufftables', 'isal_create_hufftables_subset'):
+        f = mod.funcs.get(fn)
+        if f is None:
+            raise AnalysisBroken(fn + ' not found')
+        for i in f.all_insns():
+            cal = base_name(i.callee or '') if i.op == 'call' else None
+            if cal not in FILLERS:
+                continue
+            dests, ci = FILLERS[cal]
+            cnt = i.args[ci][1]
+            for di in dests:
+                R.instance()
+                d = f.defs.get(i.args[di][1])
+                m = re.match(r'^\[(\d+) x ', (d.extra.get('basety') or '').strip()) if d is not None and d.op == 'getelementptr' else None
+                if m is None:
+                    R.fail(mod.where(f, i), '%s: destination argument %d of %s is not the start of a declared array' % (fn, di, cal), key='L-TABLE-COVER|%s|%s|%d' % (fn, cal, di))
+                    continue
+                n = int(m.group(1))
+                R.check(re.match(r'^\d+$', cnt) is not None and int(cnt) == n, mod.where(f, i), '%s: %s fills %s entries of a table declared with %d: the remaining entries keep their memset value although the stored header '
+                        'can advertise a code for them' % (fn, cal, cnt if re.match(r'^\d+$', cnt) else 'a run-time number of', n), key='L-TABLE-COVER|%s|%s|%d' % (fn, cal, n),
+                        sample='%s: %s count %s == declared %d' % (fn, cal, cnt, n))
 
 
 def check_useable_schedule(rep, mod, K):
